@@ -1,6 +1,6 @@
 (* C01 -- render() is total (partial: see MANIFEST level text).  Property theorems only. *)
 From Rimu Require Import Base Regex RegexParse Str Types Tables Guards State Inline Block
-  Frame FrameBlock FrameInst OptionsLemmas MiscLemmas Rel RelBlock RelApi PlainDoc Unicode RegexAnalysis MoreLemmas Plain Lines TableFacts RegexSem MatchLemmas Placeholder Taint.
+  Frame FrameBlock FrameInst OptionsLemmas MiscLemmas Rel RelBlock RelApi PlainDoc Unicode RegexAnalysis MoreLemmas Plain Lines TableFacts RegexSem MatchLemmas Placeholder TaintInline NoRaise NoRaiseTop Taint.
 
 (* option handling never fails, whatever the option values *)
 Theorem C01_update_total : forall o s, exists s', updateFrom o s = Ok (tt, s').
@@ -65,6 +65,32 @@ Print Assumptions C01_inline_no_underflow.
 Theorem C01_reachable_env_ok : forall n h, Forall (fun so => opts_ok (snd so)) h -> env_ok (ienv_of (snd (run n S0 h))).
 Proof. exact reachable_env_ok. Qed.
 Print Assumptions C01_reachable_env_ok.
+
+(* spans.render raises nothing: the assert on the quote definition, the group access of the HTML and entity filters and the
+   pop of the saved fragments are unreachable *)
+Theorem C01_spans_never_raises : forall s n src e,
+  env_ok s -> Forall filt_ok (en_repls s) -> rfree src -> spans_render n s src <> Raise e.
+Proof. exact spans_render_never_raises. Qed.
+Print Assumptions C01_spans_never_raises.
+
+(* THE EXCEPTIONS THAT CAN ESCAPE render(): from every session satisfying the invariant Sok (all reachable ones, below), for every
+   source, fuel and option values with reserved-free replacement text, a failure of the API is one of
+     ExIntTooLong   a macro parameter number of more than 4300 digits                    (known finding),
+     ExPopEmpty     the list-id stack underflow of a container attached to a list item   (known finding),
+     ExUnsupported  an author pattern outside the modelled regex subset (the comparison skips such cases),
+     ExFilter       the pattern of the indented-paragraph / macro-definition content filter not matching what the block
+                    pattern matched (never observed; not excluded by proof).
+   Unreachable, by proof: re.error, a non-participating group (readTo, list items, definition filters, inline filters),
+   an index into an empty match (no line, list or block pattern matches the empty string or a lone backslash; the paragraph
+   pattern takes at least the first character), an empty reader at every place that indexes the cursor, the quote assert,
+   int() of a malformed parameter number, an empty parameter list, the placeholder pop. *)
+Theorem C01_raises_only : forall n src o s e, opts_ok o -> Sok s -> api_render n src o s = Raise e -> blk_exn e.
+Proof. exact api_render_raises_only. Qed.
+Print Assumptions C01_raises_only.
+
+Theorem C01_reachable_invariant : forall n h, Forall (fun so => opts_ok (snd so)) h -> Sok (snd (run n S0 h)).
+Proof. exact reachable_Sok. Qed.
+Print Assumptions C01_reachable_invariant.
 
 Example C01_ex :
   match api_render 40 $"Hello *world*" (mkOpts (PyStr $"junk") (PyInt 5) (PyStr $"maybe") true) S0 with
